@@ -42,10 +42,13 @@ def fmod (x y : Float) : Float :=
 
 /-- truncation toward zero of a finite double -/
 def toIntExact (x : Float) : Int :=
-  if !isFinite x then 0 else
+  -- Go's float64 → int conversion of a value that does not fit is implementation-defined; on amd64
+  -- (CVTTSD2SQ) it is the "integer indefinite" value -2^63, also for NaN and infinities
+  if !isFinite x then -(2 ^ 63 : Int) else
   let (s, m, e) := decode x
   let n : Nat := if e ≥ 0 then m * 2 ^ e.toNat else m / 2 ^ (-e).toNat
-  if s then -(n : Int) else n
+  let v : Int := if s then -(n : Int) else n
+  if v ≥ 2 ^ 63 || v < -(2 ^ 63 : Int) then -(2 ^ 63 : Int) else v
 
 def trunc (x : Float) : Float := if x < 0 then x.ceil else x.floor
 
